@@ -122,7 +122,16 @@ class Resolver:
                 return [("cls", f"{PKG}.{k}")]
             # comprehension / loop targets (f-string internals carry no mypy position):
             # element type of the iterable, destructured like the target
-            return self._target_type(fi, node)
+            t = self._target_type(fi, node)
+            if t:
+                return t
+            # a local variable: the type mypy gives one of its binding occurrences
+            for n in self._own_nodes(fi.node):
+                if isinstance(n, ast.Name) and n.id == node.id and isinstance(n.ctx, ast.Store):
+                    alts = self.prog.type_alts(fi.module, n)
+                    if alts:
+                        return alts
+            return []
         if isinstance(node, ast.Attribute):
             base = self.expr_alts(fi, node.value)
             out: List[Tuple[str, str]] = []
